@@ -2523,6 +2523,9 @@ class Recipe:
                 step.substances_used = self.results[dest_name].get_substances()
                 step.to.append(self.results[dest_name])
                 step.instructions = f"Create container '{dest_name}'."
+                if self.results[dest_name].contents:
+                    # (what goes into it is part of the step: the container's own first instruction says it)
+                    step.instructions = f"Create container '{dest_name}': {self.results[dest_name].instructions}"
             elif operator == 'transfer':
                 source = step.frm[0]
                 source_name = source.plate.name if isinstance(source, PlateSlicer) else source.name
